@@ -158,6 +158,7 @@ impl Part for C02 {
         }
         let nh = c.suite.kdf.nh();
         let mut transcript_exports = vec![];
+        let mut high: Vec<(u64, Vec<u8>, Vec<u8>)> = vec![];
         for ci in 0..EXPORT_CTX_LENS.len() {
             let ectx = export_ctx(ci, cfg.seed);
             for l in [0usize, 1, nh, nh + 1, 255] {
@@ -170,6 +171,16 @@ impl Part for C02 {
             }
         }
         out.check("no RNG draws after setup", rng.drawn() == drawn_setup);
+        // ciphertexts at high sequence numbers (reached with the hook): ContextS.Seal is defined for every seq
+        if c.suite.aead.can_seal() && !c.msgs.is_empty() {
+            for (i, p) in [1u64 << 32, (1u64 << 40) + 1, (1u64 << 56) + 2, u64::MAX - 1].into_iter().enumerate() {
+                s.set_seq(p);
+                let pt = bytes(c.fill, 9, 300 + i as u64, cfg.seed);
+                let want = ref_s.seal_at(p as u128, b"hi", &pt);
+                expect_bytes(&mut out, &format!("ciphertext at sequence {:#x}", p), &s.seal(&pt, b"hi"), &want);
+                high.push((p, pt, want));
+            }
+        }
 
         // ---------------- direction R: implementation receiver vs R1-produced wire data ----------------
         let ref_r = r1_setup_r(c.suite, &m, &enc_ref, &k.sk_r, &info);
@@ -191,6 +202,10 @@ impl Part for C02 {
                         r.open_ip(&mut buf, aad, &ct[ct.len() - nt..]).map(|_| buf.clone())
                     };
                     expect_bytes(&mut out, &format!("receiver opens R1 ciphertext #{}", i), &got, pt);
+                }
+                for (p, pt, ct) in &high {
+                    r.set_seq(*p);
+                    expect_bytes(&mut out, &format!("receiver opens R1 ciphertext sealed at sequence {:#x}", p), &r.open(ct, b"hi"), pt);
                 }
                 for ci in 0..EXPORT_CTX_LENS.len() {
                     let ectx = export_ctx(ci, cfg.seed);
